@@ -14,8 +14,10 @@ package sim
 //   in-the-requested-order      strictly monotone in the requested order across page boundaries
 //   pages-are-full              every page but the last has pageSize items; hasMore iff there is a next cursor
 //   previous-returns-the-page-before
-//                               following previous from page i gives exactly page i-1 (appends never land inside
-//                               a page that was already served: ids only grow, and the account set is fixed)
+//                               following previous from page i gives the entities that immediately precede it:
+//                               exactly page i-1, except for entities committed after the walk began (ids do not
+//                               always become visible in id order - C16's known findings - so such an entity can
+//                               appear inside a page already served; the account set is fixed)
 
 import (
 	"fmt"
@@ -211,29 +213,82 @@ func checkWalks(r *runner) []Violation {
 				vs = append(vs, Violation{prop, "every-entity-exactly-once", fmt.Sprintf("%s: the walk reached the end without %v, committed before its first page was requested; pages %v", what, missing, pagesOf(fwd))})
 			}
 		}
-		// previous-returns-the-page-before
-		for j, pg := range back {
-			want := len(fwd) - 2 - j
-			if want < 0 {
-				// appends above the first page of a descending listing give it a previous page: legitimate,
-				// as long as what it lists precedes the first page
-				for _, id := range pg.IDs {
-					if len(fwd[0].IDs) > 0 && !less(id, fwd[0].IDs[0]) {
-						vs = append(vs, Violation{prop, "previous-returns-the-page-before", fmt.Sprintf("%s: a page before the first one lists %s, which does not precede %s", what, id, fwd[0].IDs[0])})
+		// previous-returns-the-page-before. Ids do not always become visible in id order (C16's known findings: a
+		// log or transaction with a smaller id can commit after one with a larger id), so an entity committed after
+		// the walk began may appear INSIDE the range already served and shift every backward page. The backward
+		// walk is therefore judged as a whole against the entities that existed when the walk began, and page for
+		// page only when no such late entity is involved.
+		if len(back) > 0 && len(last.IDs) > 0 {
+			first := last.IDs[0]
+			var oldBefore []string
+			for id, ev := range created {
+				if ev < fwd[0].Invoke && less(id, first) {
+					oldBefore = append(oldBefore, id)
+				}
+			}
+			sort.Slice(oldBefore, func(a, b int) bool { return less(oldBefore[a], oldBefore[b]) })
+			var bcat, bOld []string
+			late := 0
+			for j := len(back) - 1; j >= 0; j-- {
+				bcat = append(bcat, back[j].IDs...)
+			}
+			okOrder := true
+			for k, id := range bcat {
+				if ev, ok := created[id]; !ok {
+					vs = append(vs, Violation{prop, "previous-returns-the-page-before", fmt.Sprintf("%s: a backward page lists %s, which the ledger does not hold", what, id)})
+				} else if ev >= fwd[0].Invoke {
+					late++
+				} else {
+					bOld = append(bOld, id)
+				}
+				if !less(id, first) || (k > 0 && !less(bcat[k-1], id)) {
+					okOrder = false
+				}
+			}
+			ended := back[len(back)-1].Previous == ""
+			wantOld := oldBefore
+			if !ended && len(wantOld) > len(bOld) {
+				wantOld = wantOld[len(wantOld)-len(bOld):]
+			}
+			switch {
+			case !okOrder:
+				vs = append(vs, Violation{prop, "previous-returns-the-page-before", fmt.Sprintf("%s: walking back from the page starting at %s gives pages %v: not in the requested order before it", what, first, pagesOf(back))})
+			case strings.Join(bOld, ",") != strings.Join(wantOld, ","):
+				vs = append(vs, Violation{prop, "previous-returns-the-page-before", fmt.Sprintf("%s: walking back from the page starting at %s gives pages %v (backward, as fetched); the entities that existed when the walk began and precede it are %v; forward pages were %v", what, first, pagesOf(back), oldBefore, pagesOf(fwd))})
+			default:
+				for j, pg := range back {
+					if j < len(back)-1 && len(pg.IDs) != ws.PageSize {
+						vs = append(vs, Violation{prop, "previous-returns-the-page-before", fmt.Sprintf("%s: backward page %d has %d items %v although a page before it follows", what, j, len(pg.IDs), pg.IDs)})
 					}
 				}
-				break
-			}
-			if strings.Join(pg.IDs, ",") != strings.Join(fwd[want].IDs, ",") {
-				vs = append(vs, Violation{prop, "previous-returns-the-page-before", fmt.Sprintf("%s: following previous from page %d gives %v; page %d was %v", what, want+1, pg.IDs, want, fwd[want].IDs)})
-				break
+				if late == 0 {
+					for j, pg := range back {
+						want := len(fwd) - 2 - j
+						if want < 0 {
+							break
+						}
+						if noLate(fwd[want].IDs, created, fwd[0].Invoke) && strings.Join(pg.IDs, ",") != strings.Join(fwd[want].IDs, ",") {
+							vs = append(vs, Violation{prop, "previous-returns-the-page-before", fmt.Sprintf("%s: following previous from page %d gives %v; page %d was %v", what, want+1, pg.IDs, want, fwd[want].IDs)})
+							break
+						}
+					}
+				}
 			}
 		}
-		if ws.Back && last.Next == "" && len(back) < len(fwd)-1 {
-			vs = append(vs, Violation{prop, "previous-returns-the-page-before", fmt.Sprintf("%s: %d pages forward, but the previous cursors end after %d pages back", what, len(fwd), len(back))})
+		if ws.Back && last.Next == "" && len(fwd) > 1 && len(back) == 0 {
+			vs = append(vs, Violation{prop, "previous-returns-the-page-before", fmt.Sprintf("%s: %d pages forward, but the last page has no previous cursor", what, len(fwd))})
 		}
 	}
 	return vs
+}
+
+func noLate(ids []string, created map[string]uint64, since uint64) bool {
+	for _, id := range ids {
+		if ev, ok := created[id]; !ok || ev >= since {
+			return false
+		}
+	}
+	return true
 }
 
 func pagesOf(ps []WalkPage) [][]string {
